@@ -7,6 +7,7 @@ import ast
 from gv import rules
 from gv.astutil import compare_parts
 from gv.astutil import const_value
+from gv.astutil import AnalysisError
 from gv.astutil import dotted
 from gv.astutil import kwarg
 from gv.astutil import last_attr
@@ -408,7 +409,31 @@ def check_newton_parity(ctx: Ctx) -> None:
     ctx.ob("6.5-newton", cname(NR, "MDANewtonRaphson", "__compute_newton_step"), bool(ok), "the Newton system must be solved for the residual vector just computed", node=(cs or [m])[0], stmt="residuals=current residual vector")
 
 
+def check_cascade_tables(ctx: Ctx) -> None:
+    """6.6: a composed MDA hands the tolerance and the iteration budget it is given to its inner MDAs, also when they
+    are changed on its settings after construction (the table of cascaded settings lists them)."""
+    n = 0
+    for rel, mod in sorted(ctx.index.modules.items()):
+        if not (rel.startswith("mda/") and rel.endswith("_settings.py")):
+            continue
+        for cn, c in sorted(mod.classes.items()):
+            for st in c.node.body:
+                tgt = st.target if isinstance(st, ast.AnnAssign) else (st.targets[0] if isinstance(st, ast.Assign) else None)
+                if tgt is None or dotted(tgt) != "_settings_names_to_be_cascaded" or st.value is None:
+                    continue
+                if not isinstance(st.value, (ast.List, ast.Tuple)):
+                    raise AnalysisError(f"{rel}::{cn}: _settings_names_to_be_cascaded is not a literal")
+                names = [e.value for e in st.value.elts if isinstance(e, ast.Constant)]
+                if not names:
+                    continue  # the base class: nothing is cascaded by default
+                n += 1
+                missing = sorted({"tolerance", "max_mda_iter"} - set(names))
+                ctx.ob("6.6-cascade", cname(rel, cn), not missing, f"{cn} cascades {names} to its inner MDAs but not {missing}: a value set on the composed MDA's settings then stays there, the inner MDAs keep their own (looser) one and the composition returns couplings that are not converged to what was asked", node=st, stmt="tolerance and max_mda_iter are cascaded")
+    ctx.floor("6.6-cascade", 2)
+
+
 def run(ctx: Ctx) -> None:
+    check_cascade_tables(ctx)
     check_scalings(ctx)
     check_loops(ctx)
     check_predicate(ctx)
